@@ -23,8 +23,11 @@ type env struct {
 	stopCh   chan struct{}
 	uwg      *sync.WaitGroup
 	cwg      sync.WaitGroup
+	cdone    []chan struct{}
 	f        *faults
 	delayClosed bool
+	initial     map[int]bool
+	joined      bool
 }
 
 // Run executes the scenario as the main simulated goroutine.
@@ -106,10 +109,16 @@ func runOnce(sc *Scenario) {
 		}()
 	}
 
+	e.initial = map[int]bool{}
 	for k, i := range sc.Initial {
+		e.initial[i] = true
 		e.do(-1, -1-k, Op{K: OpAdd, Bar: i})
 	}
 	e.cwg.Add(len(sc.Clients))
+	e.cdone = make([]chan struct{}, len(sc.Clients))
+	for ci := range sc.Clients {
+		e.cdone[ci] = make(chan struct{})
+	}
 	for ci := range sc.Clients {
 		ci := ci
 		go func() {
@@ -119,6 +128,7 @@ func runOnce(sc *Scenario) {
 			if e.uwg != nil {
 				e.uwg.Done()
 			}
+			close(e.cdone[ci])
 			e.cwg.Done()
 		}()
 	}
@@ -134,10 +144,11 @@ func runOnce(sc *Scenario) {
 	for k, op := range sc.Post {
 		e.do(-2, k, op)
 	}
+	e.cwg.Wait()
+	e.joined = true
 	if e.notifier != nil && !c.NoReadNotifier {
 		e.do(-2, 1000, Op{K: OpReadNotifier})
 	}
-	e.cwg.Wait()
 	for i, b := range e.bars {
 		if b == nil {
 			continue
@@ -251,7 +262,9 @@ func (e *env) do(client, idx int, op Op) {
 		needBar = true
 	}
 	if needBar {
-		if op.Bar >= 0 && op.Bar < len(e.bars) {
+		// main only touches bars it created itself until it has joined the clients
+		// (a handle stored by a client is not published to main before that)
+		if op.Bar >= 0 && op.Bar < len(e.bars) && (client >= 0 || e.joined || e.initial[op.Bar]) {
 			b = e.bars[op.Bar]
 		}
 		if b == nil {
@@ -341,9 +354,9 @@ func (e *env) do(client, idx int, op Op) {
 	case OpBarWait:
 		b.Wait()
 	case OpTraverse:
-		n := 0
-		b.TraverseDecorators(func(decor.Decorator) { n++ })
-		r = int64(n)
+		// the callback runs asynchronously in the bar's goroutine: it must not share state with the caller
+		bi := op.Bar
+		b.TraverseDecorators(func(decor.Decorator) { simrt.Log(simrt.Entry{Kind: "trav", ID: bi}) })
 	case OpAvgAdjust:
 		b.DecoratorAverageAdjust(simrt.TimeOf(op.N))
 	case OpRefresh:
@@ -382,6 +395,11 @@ func (e *env) do(client, idx int, op Op) {
 		}
 	case OpJoin:
 		e.cwg.Wait()
+		e.joined = true
+	case OpJoinFirst:
+		for i := 0; i < int(op.N) && i < len(e.cdone); i++ {
+			<-e.cdone[i]
+		}
 	case OpFair:
 		simrt.EnterFair()
 	case OpProxy:
